@@ -427,6 +427,13 @@ def mk_fn(name, *args):
         got = _ungather([xp, fp], lab_)
         if got is not None:
             args = (args[0], B(lab_, got[0]), B(lab_, got[1])) + tuple(args[3:])
+    if name == 'logspace' and len(args) == 4 and args[0][0] == 'L' and all(x[0] == 'P' for x in args[1:]):
+        # n points from 10**a to 10**b, evenly spaced in the exponent: element i is 10**(a + i*(b - a)/(n - 1)); a single point is 10**a
+        a_, b_, n_ = [Poly.from_key(x[1]) for x in args[1:]]
+        if n_.is_const() and n_.const_value() == 1:
+            return mk_fn('exp10', P(a_))
+        if not (n_.is_const() and n_.const_value() < 1):
+            return mk_fn('exp10', P(a_ + Poly.atom(('fn', 'arange', args[0])) * (b_ - a_) * (n_ - 1).pow(-1)))
     if name == 'compress' and len(args) == 3 and args[0][0] == 'L' and args[1][0] == 'B' and args[2][0] == 'B' and args[1][1] == args[2][1]:
         # the elements a mask selects are the elements at the positions where it holds: x[mask] == x[nonzero(mask)]
         lab = args[1][1]
